@@ -76,6 +76,8 @@ CONSTANTS
     CapAtBlobSize,       \* TRUE: configured size > blob size is replaced by the blob size
     BgAllFiles,          \* TRUE: background fetch caches every regular file; FALSE: skips files seen by the pre-reader
     WaitHonoursTimeout,  \* TRUE: wait() has a timeout branch
+    FailOnCacheError,    \* TRUE: an error of the chunk cache's Add makes the caching walk (and so Prefetch/BackgroundFetch) fail;
+                         \* FALSE: the chunk is silently left out and the walk reports success
     ThresholdOnEffective,\* TRUE: PrefetchAsyncSize is compared with the effective range (after the landmark lookup / cap);
                          \* FALSE: with the configured size, before the landmarks are looked up
     AllowReg             \* RegistryOff/On actions enabled in this configuration
@@ -186,6 +188,10 @@ BlobCacheStall ==
     /\ UNCHANGED <<sc, pc, runner, pfres, psize, pinfo, waiter, wc, bc, brunner, bg, bgres, prio, fetched, lst, reg>>
     /\ last' = [act |-> "BlobCacheStall", req |-> Cover(psize) \ fetched]
 
+\* r names what the environment does to a step: "ok", "fail" (the registry refuses the requests) or "cachefail" (the
+\* chunk cache's Add returns an error, e.g. ENOSPC, while the step runs); Reported(r) is what the step returns
+Reported(r) == IF r = "ok" \/ (r = "cachefail" /\ ~FailOnCacheError) THEN "ok" ELSE "fail"
+
 \* The "G" forms take what the step fetched (got), the chunk-cache state it left (l2) and the requests it made (rq) as
 \* arguments, bounded by what the design allows; the plain forms used by Next pick the canonical values, the trace
 \* spec passes the values observed on the implementation.
@@ -214,22 +220,24 @@ ReaderCacheG(r, got, l2, rq) ==
            need == Missing(F) IN
         /\ r = "fail" => need # {}
         /\ r = "ok" => (need = {} \/ reg = "on")
-        /\ IF r = "ok"
-           THEN /\ NeedMin(F) \subseteq got /\ got \subseteq GotMax(F)
-                /\ l2 = MarkFull(lst, F)
-                /\ pfres' = "ok"
-           ELSE /\ got \subseteq GotMax(F) /\ Monotone(l2, F)
-                /\ pfres' = "fail"
+        /\ r = "cachefail" => ((need = {} \/ reg = "on") /\ \E f \in F : lst[f] # 2)
+        /\ CASE r = "ok" -> /\ NeedMin(F) \subseteq got /\ got \subseteq GotMax(F)
+                            /\ l2 = MarkFull(lst, F)
+             [] r = "fail" -> got \subseteq GotMax(F) /\ Monotone(l2, F)
+             [] r = "cachefail" -> got \subseteq GotMax(F) /\ Monotone(l2, F)   \* the data is fetched; chunks committed before the
+                                                                             \* fault set in stay, the walk fails at the first Add
+        /\ pfres' = Reported(r)
         /\ fetched' = fetched \cup got
         /\ lst' = l2
-        /\ last' = [act |-> "ReaderCache", r |-> r, req |-> rq]
+        /\ last' = [act |-> "ReaderCache", r |-> Reported(r), cause |-> r, req |-> rq]
     /\ pf' = "finishing"
     /\ pinfo' = psize                      \* l.prefetchSize is set between blob.Cache and verifiableReader.Cache
     /\ UNCHANGED <<sc, pc, runner, psize, waiter, wc, bc, brunner, bg, bgres, prio, reg>>
 ReaderCache(r) ==
     LET F == RangeFiles(psize) IN
-    IF r = "ok" THEN ReaderCacheG(r, Missing(F), MarkFull(lst, F), Missing(F))
-    ELSE ReaderCacheG(r, {}, MarkFull(lst, {f \in F : Servable(f)}), Missing(F))
+    CASE r = "ok" -> ReaderCacheG(r, Missing(F), MarkFull(lst, F), Missing(F))
+      [] r = "fail" -> ReaderCacheG(r, {}, MarkFull(lst, {f \in F : Servable(f)}), Missing(F))
+      [] r = "cachefail" -> ReaderCacheG(r, Missing(F), lst, Missing(F))
 
 \* DonePrioritizedTask: a background fetch that was cancelled starts its bodies again once no prioritized task is
 \* left; it caches what it can get without the registry (l2, bounded by BgResumeOK) and its requests are held again
@@ -309,20 +317,22 @@ BgFinishG(r, got, l2, rq) ==
            need == Missing(F) IN
         /\ r = "fail" => need # {}
         /\ r = "ok" => (need = {} \/ reg = "on")
-        /\ IF r = "ok"
-           THEN NeedMin(F) \subseteq got /\ got \subseteq GotMax(F) /\ l2 = MarkFull(lst, F)
-           ELSE got \subseteq GotMax(F) /\ Monotone(l2, F)
+        /\ r = "cachefail" => ((need = {} \/ reg = "on") /\ \E f \in F : lst[f] # 2)
+        /\ CASE r = "ok" -> NeedMin(F) \subseteq got /\ got \subseteq GotMax(F) /\ l2 = MarkFull(lst, F)
+             [] r = "fail" -> got \subseteq GotMax(F) /\ Monotone(l2, F)
+             [] r = "cachefail" -> got \subseteq GotMax(F) /\ Monotone(l2, F)
         /\ fetched' = fetched \cup got
         /\ lst' = l2
-        /\ last' = [act |-> "BgFinish", r |-> r, b |-> brunner, req |-> rq]
-    /\ bg' = "end" /\ bgres' = r
+        /\ last' = [act |-> "BgFinish", r |-> Reported(r), cause |-> r, b |-> brunner, req |-> rq]
+    /\ bg' = "end" /\ bgres' = Reported(r)
     /\ bc' = [bc EXCEPT ![brunner] = "ret"]
     /\ UNCHANGED <<sc, pc, runner, pf, pfres, psize, pinfo, waiter, wc, brunner, prio, reg>>
 
 BgFinish(r) ==
     LET F == BgFiles IN
-    IF r = "ok" THEN BgFinishG(r, Missing(F), MarkFull(lst, F), Missing(F))
-    ELSE BgFinishG(r, {}, MarkFull(lst, {f \in F : Servable(f)}), Missing(F))
+    CASE r = "ok" -> BgFinishG(r, Missing(F), MarkFull(lst, F), Missing(F))
+      [] r = "fail" -> BgFinishG(r, {}, MarkFull(lst, {f \in F : Servable(f)}), Missing(F))
+      [] r = "cachefail" -> BgFinishG(r, Missing(F), lst, Missing(F))
 
 BgReturn(b) ==
     /\ bc[b] = "in" /\ b # brunner /\ bg = "end"
@@ -402,7 +412,8 @@ RegistryOn ==
 Next ==
     \/ \E p \in 1..sc.np : PrefetchCall(p) \/ PrefetchReturn(p)
     \/ Range \/ AsyncThreshold \/ BlobCacheStall
-    \/ \E r \in {"ok", "fail"} : BlobCache(r) \/ ReaderCache(r) \/ BgFinish(r)
+    \/ \E r \in {"ok", "fail"} : BlobCache(r)
+    \/ \E r \in {"ok", "fail", "cachefail"} : ReaderCache(r) \/ BgFinish(r)
     \/ PrefetchEnd
     \/ \E w \in 1..sc.nw : WaitCall(w) \/ WaitReturn(w) \/ WaitTimeout(w)
     \/ \E b \in 1..sc.nb : BgCall(b) \/ BgReturn(b)
@@ -454,6 +465,14 @@ PrefetchTrafficConfined ==
 \* unreachable (a request, even an answered one, means the read would fail offline)
 AfterBackgroundFetchOfflineReadable ==
     (last.act = "Read" /\ BgDoneOK) => (last.ok /\ last.req = {})
+
+\* success means cached: when the caching walk of prefetch reports success every file whose first chunk lies in the
+\* range is in the chunk cache, when background fetch reports success every regular file is ("make later reads local";
+\* with the blob cache in place the bytes fetched for a chunk that could not be added are still readable offline, so
+\* this is stronger than AfterBackgroundFetchOfflineReadable)
+SuccessMeansCached ==
+    /\ (last.act = "BgFinish" /\ last.r = "ok") => \A f \in Files : lst[f] = 2
+    /\ (last.act = "ReaderCache" /\ last.r = "ok") => \A f \in Files : sc.off[f] < Expected => lst[f] = 2
 
 \* waiting returns when prefetch ends or fails: the waiter is closed whenever prefetch is over ...
 WaiterClosedAtEnd == pf = "end" => waiter = "closed"
